@@ -243,7 +243,9 @@ let parse_file (path : string) : Trace.tev list * stats =
           let known = Hashtbl.fold (fun n name acc -> (n, name) :: acc) rid_names [] in
           (* one entry per matching pattern: the gateway runs its callback once for every listed pattern that matches *)
           let matching = L.concat_map (fun (n, name) ->
-            let conc = (match int_of_string_opt name with Some k -> "test.r" ^ string_of_int k | None -> "") in
+            let conc = (match int_of_string_opt name with
+                        | Some k -> "test.r" ^ string_of_int k
+                        | None -> (match qparts name with Some (nn, _) -> "test.r" ^ string_of_int nn | None -> "")) in   (* patterns match the resource name; the query is not part of it *)
             if conc = "" then [] else
             L.filter_map (fun p -> if PatternParse.match_model p (chars_of_string conc) then Some (nat_of_int n) else None) pats) known in
           let res = if which = "resources" || which = "both" then matching else [] in
